@@ -22,7 +22,7 @@ API = {0: 'parallel_for(ts, start, end, f(b,e), opts)', 1: 'parallel_for(ts, sta
        2: 'parallel_for(ts, ChunkedRange, f(b,e), opts)', 3: 'for_each_n(ts, pointer, n, f(elem&), {maxThreads, wait})'}
 
 
-def inst(name, N, S, mode=0, wait=2, api=0, tiers=('quick', 'thorough'), timeout=280, unwind=None, thorough=None, **kw):
+def inst(name, N, S, mode=0, wait=2, api=0, tiers=('quick', 'thorough'), timeout=900, unwind=None, thorough=None, **kw):
     defs = {'VF_N': N, 'VF_S': S, 'VF_MODE': mode, 'VF_WAIT': wait, 'VF_DEPTH': N + 1, 'VF_API': api}
     defs.update(kw)
     d = {'name': name, 'src': 'conc.cpp', 'engine': 'cbmc', 'defs': defs, 'models': ['aligned_alloc'],
